@@ -33,6 +33,10 @@ var c09Presented = []presentedID{
 }
 
 func setupC09(x *Ctx) {
+	if x.Chance("c09-hub", 0.04) {
+		c09Hub(x)
+		return
+	}
 	pi := x.Biased("presented", len(c09Presented), 0.3)
 	pres := c09Presented[pi]
 	o := ship1Opts{
